@@ -145,6 +145,12 @@ class FarmWorld:
             r = vm.call(A[OWNER], self.efact, "setUserEnergy", [A[u], top_u(en), top_u(locked)])
             assert r.ok
             return None
+        if k == "Upgrade":
+            # contract upgrade by the owner: on a configured farm it must change nothing (first_week_start_epoch and the
+            # farm-position migration nonce are set only while empty); an environment step for the model
+            r = vm.call(A[OWNER], self.farm, "upgrade", [])
+            assert r.ok, r
+            return None
         pre_pool = self.last["pool"]
         pre_cfg = dict(self.shadow)
         pays = lambda ps: [(FARM, n, x) for (n, x) in ps]
@@ -395,6 +401,8 @@ def gen_op(rng, w):
         if kind < 0.93:
             return ["SetPenalty", OWNER, rng.choice([0, 1, 100, 9999, 10000])]
         return ["TopUp", log_amount(rng, 10 ** 9)]
+    if type(w).__name__ in ("FarmWorld", "LockedFarmWorld", "StakingPosWorld") and w.last["supply"] > 0 and rng.random() < 0.02:
+        return ["Upgrade"]          # only the base worlds (their derived worlds have their own observation code)
     mine = positions_of(w, c)
     if roll < 0.42 or not mine:
         amt = rng.choice([1, 2, rng.randint(1, 100), log_amount(rng), log_amount(rng)])
